@@ -763,6 +763,14 @@ class S3StorageBackend(StorageBackend):
         from .s3_consistency import with_s3_retry
 
         s3_prefix = self._get_s3_key(prefix)
+        # `prefix` names a DIRECTORY. S3 matches Prefix as a plain string, so
+        # listing "data" would also return "data2/x" and "database.txt" (and
+        # "metadata" the version hint) - files the local backend, which walks
+        # the directory, never reports. Garbage collection deletes from this
+        # listing, so a sibling sharing the name as a string prefix must not
+        # appear in it.
+        if s3_prefix and not s3_prefix.endswith("/"):
+            s3_prefix += "/"
 
         def list_op() -> List[str]:
             result = []
